@@ -1,23 +1,51 @@
-"""F-C18-1: prescribed load-asymmetry amplitude has no right-hand-side term (run with /venv/bin/python; not a check)"""
+"""F-C18-1: prescribed load-asymmetry amplitude has no right-hand-side term (run with /venv/bin/python from a tree root; not a check).
+
+For every built model: the column of the linear stiffness matrix that couples the free amplitudes with the
+always-prescribed amplitude 2 (LA = r2*tan(betarad)).  Where that column is not zero (the first-order-shear
+'bcn' models), the linear static solution must satisfy  K_uu c_u = f_u - K_uk[:, 2]*LA ;  calc_fext leaves the
+last term out, so the free amplitudes do not respond to the prescribed value and the free rows of the full system
+K c = f are out of balance by K_uk[:, 2]*LA."""
+import sys, os; sys.path.insert(0, os.getcwd())
 import numpy as np
+import compmech
 from compmech.conecyl import ConeCyl
-def mk(betadeg):
-    cc = ConeCyl(); cc.model='clpt_donnell_bc1'; cc.m1=8; cc.m2=6; cc.n2=6; cc.r2=250.; cc.H=500.; cc.alphadeg=20.
-    cc.laminaprop=(70e3,70e3,0.3); cc.stack=[0]; cc.plyt=1.
-    cc.Fc=1000.; cc.pdC=False; cc.betadeg=betadeg
+from compmech.conecyl.modelDB import db
+print('compmech from', compmech.__file__)
+
+
+def mk(model, alpha, betadeg):
+    cc = ConeCyl(); cc.model = model; cc.m1 = 6; cc.m2 = 5; cc.n2 = 5; cc.r2 = 250.; cc.H = 500.; cc.alphadeg = alpha
+    cc.laminaprop = (70e3, 70e3, 0.3); cc.stack = [0]; cc.plyt = 1.
+    cc.Fc = 1000.; cc.pdC = False; cc.betadeg = betadeg
     return cc
-res = {}
-for beta in (0., 2.):
-    cc = mk(beta); cc.static(); c = cc.cs[0]
-    fext = cc.calc_fext()
-    cfull = cc.calc_full_c(c)
-    k0 = cc.k0.toarray() if hasattr(cc.k0,'toarray') else np.asarray(cc.k0)
-    free = [i for i in range(k0.shape[0]) if i not in cc.excluded_dofs]
-    # equilibrium of the free rows of the FULL system with the prescribed amplitudes inserted
-    ffull = np.zeros(k0.shape[0]); ffull[free] = fext
-    # remove the prescribed-displacement terms that calc_fext already moved to the rhs (dofs 0,1 handled; 2 is the question)
-    j = cc.excluded_dofs.index(2)
-    r = np.asarray(cc.k0uk)[:, j]*cc.LA
-    print('betadeg=%g  LA=%g  excluded=%s  max|k0uk[:,LA dof]*LA| (term missing from the rhs) = %.4g   |c_u| = %.6g' % (beta, cc.LA, cc.excluded_dofs, np.abs(r).max(), np.abs(c).max()))
-    res[beta] = c
-print('free amplitudes identical with and without the prescribed LA:', np.allclose(res[0.], res[2.]))
+
+
+bad = 0
+for model in sorted(db):
+    if db[model]['linear'] is None or model.startswith('iso_'):
+        continue
+    for alpha in (0., 20.):
+        cc = mk(model, alpha, 2.)
+        cc._rebuild(); cc._calc_linear_matrices()
+        col = np.asarray(cc.k0uk)[:, 2]
+        if np.abs(col).max() == 0:
+            continue
+        sol = {}
+        for beta in (0., 2.):
+            cc = mk(model, alpha, beta)
+            cc.static(silent=True) if 'silent' in cc.static.__code__.co_varnames else cc.static()
+            c = np.asarray(cc.cs[0]); f = np.asarray(cc.calc_fext(silent=True))
+            kuk = np.asarray(cc.k0uk)
+            # free rows of the full system, prescribed amplitudes inserted:  K_uu c_u + K_uk c_k - f_applied
+            # (amplitudes 0 and 1: force-controlled / prescribed to zero here; the applied loads do not depend on betadeg)
+            if beta == 0.:
+                f_applied = f          # LA = 0, no prescribed rotation or shortening: the applied loads alone
+            res_reduced = np.abs(cc.k0uu*c - f).max()/np.abs(f_applied).max()
+            res_full = np.abs(cc.k0uu*c + kuk[:, 2]*cc.LA - f_applied).max()/np.abs(f_applied).max()
+            sol[beta] = c
+            print('%-22s alpha=%4.1f betadeg=%g LA=%7.3f  |K_uu c_u - f_u|/|f| = %.1e   free rows of the full system out of balance by %.3e' % (model, alpha, beta, cc.LA, res_reduced, res_full))
+        same = np.allclose(sol[0.], sol[2.], rtol=1e-12, atol=0)
+        print('    free amplitudes identical with and without the prescribed LA: %s' % same)
+        bad += same
+print('FAIL: %d model/geometry pairs ignore the prescribed load asymmetry' % bad if bad else 'ok')
+sys.exit(1 if bad else 0)
